@@ -12,6 +12,9 @@ def run(ctx):
     c = sc.consts("ebgp", {"ok"}, {"annA", "annAB", "annC6", "noOrigin", "pfxLen33"}, {"badMarker", "lenLong"},
                   {"ManualStop", "HoldExpires", "Notification", "NotifCode7"}, 8 if not big else 9)
     behs += sc.run_family(ctx, "ebgp exits", c, 8000 if big else 900, sim=(500 if big else 60, 14))
+    if big:
+        c = sc.consts("ebgp", {"ok"}, {"annA", "noOrigin"}, {"badMarker"}, {"ManualStop", "Notification", "Wait"}, 8, sessions=2)
+        behs += sc.run_family(ctx, "all paths ebgp", c, 4000, design=False, allpaths=True)
     c = sc.consts("hold3", {"hold3"}, {"annAB"}, set(), {"WriteFails", "HoldExpires"}, 7)
     behs += sc.run_family(ctx, "keepalive write failure", c, 2000 if big else 150)
     c = sc.consts("ibgp", {"ok"}, {"annAB", "wdA"}, {"type0"}, {"ManualStop", "Notification", "NotifBadSub", "NotifData"}, 7)
